@@ -180,6 +180,63 @@ def scen_convert(env, iso, present, frac_p):
         env.check('convert-type', isinstance(res, float))
 
 
+def scen_call_sites(env):
+    """'every duration accepted by edzed': the block arguments that take a duration accept the same notations and end up
+    as the same number of seconds as convert() gives (concrete strings; the arithmetic itself is scen_convert's):
+    Repeat interval, Timer t_on/t_off, per-event 'duration', init_timeout / stop_timeout, expiration, guard_time,
+    InputExp duration.  The FSM durations are observed through the timer actually armed on the virtual loop."""
+    import asyncio
+    from symx import vloop
+    from symx.edz import fresh_circuit, live_block_timers
+    text = env.pick(['1m30s', 'PT1M30S', '1,5m', ' 90 ', 'P0DT0H1.5M', '0h 1M 30S'], 'notation')
+    want = 90.0
+    number = env.pick([90, 90.0], 'number')
+    circ = fresh_circuit()
+    p = edzed.Input('p', initdef=0)
+
+    class A(edzed.AddonAsync, edzed.SBlock):
+        def init_regular(self):
+            self.set_output(0)
+
+        async def init_async(self):
+            pass
+
+        async def stop_async(self):
+            pass
+    a = A('a', init_timeout=text, stop_timeout=text)
+    cnt = edzed.Counter('cnt', persistent=True, expiration=text)
+    circ.set_persistent_data({})
+    rep = edzed.Repeat('rep', dest=p, etype='put', interval=text)
+    async def coro(v):
+        return v
+    oa = edzed.OutputAsync('oa', coro=coro, mode='wait', guard_time=text, stop_timeout='1h', on_error=None)
+    tmr = edzed.Timer('tmr', t_on=text, t_off=number)
+    ie = edzed.InputExp('ie', duration=text, expired='X', initdef=1)
+    tmr2 = edzed.Timer('tmr2')
+    env.check('call-sites', a.init_timeout == want and a.stop_timeout == want and cnt.expiration == want
+              and rep._interval == want and oa._guard_time == want and oa.stop_timeout == 3600.0,
+              info=lambda: (text, a.init_timeout, a.stop_timeout, cnt.expiration, rep._interval, oa._guard_time))
+    res = {}
+
+    async def main():
+        loop = asyncio.get_running_loop()
+        asyncio.create_task(circ.run_forever())
+        await circ.wait_init()
+        t0 = loop.time()
+        tmr.event('start')
+        tmr2.event('start', duration=text)
+        res['due'] = sorted(h.when() - t0 for h in live_block_timers(loop, circ))
+        await asyncio.sleep(89.0)
+        res['on89'] = (tmr.output, tmr2.output, ie.output)
+        await asyncio.sleep(2.0)
+        res['on91'] = (tmr.output, tmr2.output, ie.output)
+        await circ.shutdown()
+    vloop.run(main())
+    # three timers pending after the two starts: ie (armed at init), tmr, tmr2 - all due 90 s after they were armed
+    env.check('call-sites-fsm', res['due'] == [want, want, want] and res['on89'] == (True, True, 1)
+              and res['on91'] == (False, False, 'X'), info=lambda: (text, res))
+
+
 def scen_period(env):
     kind = env.pick(['real', 'int', 'none', 'str', 'bool'], 'kind')
     if kind == 'none':
@@ -283,7 +340,8 @@ def shards(tier):
     out = [{'name': 'lang traditional', 'scenario': 'scen_lang', 'params': {'which': 'traditional'}},
            {'name': 'lang iso', 'scenario': 'scen_lang', 'params': {'which': 'iso'}},
            {'name': 'malformed', 'scenario': 'scen_malformed'},
-           {'name': 'time_period', 'scenario': 'scen_period'}]
+           {'name': 'time_period', 'scenario': 'scen_period'},
+           {'name': 'durations as block arguments', 'scenario': 'scen_call_sites'}]
     fps = [0, 1, 3] if tier == 'quick' else [0, 1, 2, 3, 6]
     for iso in (False, True):
         nbits = 6 if iso else 4
